@@ -252,9 +252,18 @@ func c02Do(c *core.C, idx int, race bool) {
 		cmds = sel
 	}
 	oldProcs := runtime.GOMAXPROCS(0)
+	// In the race build GOMAXPROCS is left alone: shrinking it makes the Go runtime destroy Ps, and the
+	// ThreadSanitizer runtime of go1.23 crashes there (SIGSEGV in __tsan::ThreadContext::OnFinished under
+	// runtime.GOMAXPROCS → startTheWorld; reproduced with case 14 of the thorough tier, nothing of buf on the
+	// stack). The race part perturbs schedules through the parallelism and the seeded yields only.
+	setProcs := func(n int) {
+		if !race {
+			runtime.GOMAXPROCS(n)
+		}
+	}
 	oldPar := thread.Parallelism()
 	defer func() {
-		runtime.GOMAXPROCS(oldProcs)
+		setProcs(oldProcs)
 		thread.SetParallelism(oldPar)
 		verifhook.Reset()
 	}()
@@ -270,7 +279,7 @@ func c02Do(c *core.C, idx int, race bool) {
 			verifhook.Reset()
 			if r > 0 {
 				p, q := procsChoices[(r+ci)%4], parChoices[(r/2+ci)%4]
-				runtime.GOMAXPROCS(p)
+				setProcs(p)
 				thread.SetParallelism(q)
 				verifhook.SetYieldSeed(c.Seed*7919 + uint64(idx*131+ci*17+r))
 				label = fmt.Sprintf("GOMAXPROCS=%d parallelism=%d yields=on", p, q)
@@ -280,7 +289,7 @@ func c02Do(c *core.C, idx int, race bool) {
 					label += " flag-order-permuted"
 				}
 			} else {
-				runtime.GOMAXPROCS(oldProcs)
+				setProcs(oldProcs)
 				thread.SetParallelism(oldPar)
 			}
 			verifhook.EnableTrace(true)
@@ -321,7 +330,7 @@ func c02Do(c *core.C, idx int, race bool) {
 		}
 		c.Distinct("job_completion_orders", fmt.Sprintf("%s#%d", cmd.name, len(orders)))
 	}
-	runtime.GOMAXPROCS(oldProcs)
+	setProcs(oldProcs)
 	thread.SetParallelism(oldPar)
 	verifhook.Reset()
 
